@@ -9,15 +9,18 @@ import (
 	"math/big"
 	"strings"
 
-	abci "github.com/cometbft/cometbft/abci/types"
 	sdkmath "cosmossdk.io/math"
+	abci "github.com/cometbft/cometbft/abci/types"
 	sdk "github.com/cosmos/cosmos-sdk/types"
 	txtypes "github.com/cosmos/cosmos-sdk/types/tx"
+	"github.com/cosmos/cosmos-sdk/x/authz"
 	banktypes "github.com/cosmos/cosmos-sdk/x/bank/types"
 	"github.com/ethereum/go-ethereum/common"
 	ethtypes "github.com/ethereum/go-ethereum/core/types"
 	"github.com/ethereum/go-ethereum/core/vm"
 	"github.com/ethereum/go-ethereum/crypto"
+
+	evmtypes "github.com/EscanBE/evermint/v12/x/evm/types"
 
 	"verifharness/vh"
 )
@@ -62,8 +65,12 @@ func world(run *vh.Run, label string, wi, nBlocks int) {
 	// signed by X that declare the long account as sender must be refused like any other From != signer
 	aliasSigner = vh.NewAcct(r)
 	aliasRaw = append(r.Bytes(12), aliasSigner.Addr.Bytes()...)
+	// two accounts kept at the same sequence: a transaction signed by the first is, right after the node has seen it,
+	// offered again declared as coming from the second (whose sequence equals its nonce)
+	twinA, twinB := vh.NewAcct(r), vh.NewAcct(r)
 	w := vh.NewWorld(r, vh.WorldOpts{Chain: vh.Config{Seed: r.U64(), NumVals: 1, MaxGas: maxGas,
-		Accounts: []vh.GenAccount{{Addr: aliasSigner.Addr, Coins: vh.NativeCoins(100)}, {RawAddr: aliasRaw, Coins: vh.NativeCoins(100)}}},
+		Accounts: []vh.GenAccount{{Addr: aliasSigner.Addr, Coins: vh.NativeCoins(100)}, {RawAddr: aliasRaw, Coins: vh.NativeCoins(100)},
+			{Addr: twinA.Addr, Coins: vh.NativeCoins(100)}, {Addr: twinB.Addr, Coins: vh.NativeCoins(100)}}},
 		NumEOA: 6, Prog: vh.ProgOpts{MaxLen: 6, Depth: 1}})
 	defer w.C.Cleanup()
 	c := w.C
@@ -121,13 +128,36 @@ func world(run *vh.Run, label string, wi, nBlocks int) {
 				}
 			}
 		}
+		switch nA, nB := c.Nonce(twinA.Addr), c.Nonce(twinB.Addr); {
+		case b%5 == 2 && nA == nB:
+			to := vh.Pick(r, w.Pool)
+			tx := vh.SignEth(twinA, &ethtypes.LegacyTx{Nonce: nA, To: &to, Value: big.NewInt(7), Gas: 30000, GasPrice: new(big.Int).Mul(c.BaseFee(), big.NewInt(3))})
+			if bz, err := c.WrapEthErr(tx, twinA.Addr); err == nil {
+				plans = append(plans, &plan{TxPlan: &vh.TxPlan{Kind: "eth-transfer", Class: "ok", Sender: twinA, Tx: tx, Bytes: bz}})
+				if bz2, err := c.WrapEthErr(tx, twinB.Addr); err == nil {
+					plans = append(plans, &plan{TxPlan: &vh.TxPlan{Kind: "eth-hostile", Class: "known-transaction-declared-from-other-account", Sender: twinB, Tx: tx, Bytes: bz2}, hostile: "known-transaction-declared-from-other-account"})
+				}
+			}
+		case nB < nA: // the second account catches up with a transaction of its own
+			to := vh.Pick(r, w.Pool)
+			tx := vh.SignEth(twinB, &ethtypes.LegacyTx{Nonce: nB, To: &to, Value: big.NewInt(7), Gas: 30000, GasPrice: new(big.Int).Mul(c.BaseFee(), big.NewInt(3))})
+			if bz, err := c.WrapEthErr(tx, twinB.Addr); err == nil {
+				plans = append(plans, &plan{TxPlan: &vh.TxPlan{Kind: "eth-transfer", Class: "ok", Sender: twinB, Tx: tx, Bytes: bz}})
+			}
+		}
 		txs := make([][]byte, len(plans))
 		for i, p := range plans {
 			txs[i] = p.Bytes
 		}
+		// mempool admission, as on a node: every transaction of the block is first offered to CheckTx (nothing is judged on
+		// the answers; what the node remembers from them must not change what the block does)
+		for _, tx := range txs {
+			_, _ = c.App.CheckTx(&abci.RequestCheckTx{Tx: tx, Type: abci.CheckTxType_New})
+			run.Count("mempool_offers_before_block", 1)
+		}
 		view := func(ctx sdk.Context) any {
 			m := map[common.Address]uint64{}
-			for _, a := range w.EOAs {
+			for _, a := range append([]*vh.Acct{twinA, twinB}, w.EOAs...) {
 				if acc := c.App.AccountKeeper.GetAccount(ctx, a.Acc()); acc != nil {
 					m[a.Addr] = acc.GetSequence()
 				}
@@ -290,7 +320,7 @@ func validEth(w *vh.World, r *vh.RNG, s *vh.Acct) *vh.TxPlan {
 	val := big.NewInt(int64(r.Intn(1_000_000)))
 	if r.Chance(1, 8) {
 		val = new(big.Int).Add(w.C.Balance(s.Addr), big.NewInt(1)) // core error after admission
-		if r.Bool() { // the same for a contract creation: unaffordable value, admitted, must still consume the nonce exactly once
+		if r.Bool() {                                              // the same for a contract creation: unaffordable value, admitted, must still consume the nonce exactly once
 			return w.PlanEth(s, nil, val, 200000, vh.Deployer(vh.NewAsm().Op(vm.STOP).Bytes()), "ok", nil)
 		}
 	}
@@ -393,7 +423,31 @@ func hostile(w *vh.World, r *vh.RNG, s *vh.Acct) *plan {
 		msg := banktypes.NewMsgSend(s.Acc(), o.Acc(), sdk.NewCoins(sdk.NewCoin(vh.Denom, sdkmath.NewInt(5))))
 		opts := &vh.CosmosOpts{Seq: &seq, Gas: 200000}
 		class := ""
-		switch r.Intn(5) {
+		switch r.Intn(6) {
+		case 5:
+			// somebody else's signed Ethereum transaction (protected or not) inside the second of two authz exec messages
+			// of the sender's own Cosmos transaction: it may only ever run through the Ethereum lane
+			v := otherEOA(w, r, s)
+			var vtx *ethtypes.Transaction
+			inner := &ethtypes.LegacyTx{Nonce: w.NextNonce(v.Addr), To: &to, Value: big.NewInt(7), Gas: 30000, GasPrice: price}
+			if r.Bool() {
+				vtx = vh.SignEth(v, inner)
+			} else if t, err := ethtypes.SignNewTx(v.Key, ethtypes.HomesteadSigner{}, inner); err == nil {
+				vtx = t
+			} else {
+				return nil
+			}
+			bin, err := vtx.MarshalBinary()
+			if err != nil {
+				return nil
+			}
+			harmless := authz.NewMsgExec(s.Acc(), []sdk.Msg{msg})
+			wrapped := authz.NewMsgExec(s.Acc(), []sdk.Msg{&evmtypes.MsgEthereumTx{MarshalledTx: bin, From: s.Bech32()}})
+			txb, err := c.CosmosTxBuilder(s, []sdk.Msg{&harmless, &wrapped}, &vh.CosmosOpts{Seq: &seq, Gas: 400000})
+			if err != nil {
+				return nil
+			}
+			return &plan{TxPlan: &vh.TxPlan{Kind: "cosmos-hostile", Class: "cosmos-exec-wrapping-foreign-eth-tx", Sender: s, Bytes: c.Encode(txb)}, hostile: "cosmos-exec-wrapping-foreign-eth-tx", isCosmos: true}
 		case 0:
 			bad := seq + 1 + uint64(r.Intn(3))
 			opts.Seq = &bad
